@@ -249,7 +249,7 @@ Proof.
     + destruct (upd_cases (thr s) tid0 {| prog := r; cur := Some l'; done := done (thr s tid0) |} tid) as [[-> Hu]|[Hn Hu]]; rewrite Hu in Hc.
       * cbn in Hc. inversion Hc; subst l'. clear Hc Hu.
         destruct Ho0 as [Hwf _]. own_cases Hm Hwf; cbn in *; try discriminate; try (destruct (reserve_locks c); discriminate). reflexivity.
-      * specialize (Hok tid l Hc Hp). pose proof (H1 tid l Hc) as [_ [Hreg _]]. rewrite Hp in Hreg. specialize (Hreg eq_refl).
+      * specialize (Hok tid l Hc Hp). pose proof (proj2 H1 tid l Hc) as [_ [Hreg _]]. rewrite Hp in Hreg. specialize (Hreg eq_refl).
         destruct (micro_transf_eff c tid0 (shs s) l0 sh' (peer_of (l_op l)) (micro_sh_next _ _ _ _ _ _ Hm)) as [He|[[Hq Hp0]|[p [z Ho]]]].
         -- now rewrite He.
         -- destruct Ho0 as [_ [Hr0 _]]. rewrite Hp0 in Hr0. specialize (Hr0 eq_refl). rewrite <- Hq in Hr0. congruence.
@@ -259,7 +259,7 @@ Proof.
            ++ rewrite Hpo in Hpr. inversion Hpr; subst. cbn in Ho. subst o. assumption.
     + destruct (upd_cases (thr s) tid0 {| prog := r; cur := None; done := d :: done (thr s tid0) |} tid) as [[-> Hu]|[Hn Hu]]; rewrite Hu in Hc.
       * cbn in Hc. discriminate.
-      * specialize (Hok tid l Hc Hp). pose proof (H1 tid l Hc) as [_ [Hreg _]]. rewrite Hp in Hreg. specialize (Hreg eq_refl).
+      * specialize (Hok tid l Hc Hp). pose proof (proj2 H1 tid l Hc) as [_ [Hreg _]]. rewrite Hp in Hreg. specialize (Hreg eq_refl).
         destruct (micro_transf_eff c tid0 (shs s) l0 sh' (peer_of (l_op l)) (micro_sh_fin _ _ _ _ _ _ Hm)) as [He|[[Hq Hp0]|[p [z Ho]]]].
         -- now rewrite He.
         -- destruct Ho0 as [_ [Hr0 _]]. rewrite Hp0 in Hr0. specialize (Hr0 eq_refl). rewrite <- Hq in Hr0. congruence.
